@@ -100,8 +100,23 @@ def b_eq(a, b):
     return a == b
 
 
+def small_term(t, limit=150):
+    """is the DAG of t smaller than `limit` nodes?  (z3.simplify can take minutes on deep ite DAGs)"""
+    seen = set(); stack = [t]; n = 0
+    while stack:
+        x = stack.pop(); i = x.get_id()
+        if i in seen: continue
+        seen.add(i); n += 1
+        if n > limit: return False
+        stack.extend(x.children())
+    return True
+
+
 def simp_bool(b):
     if isinstance(b, bool): return b
+    if z3.is_true(b): return True
+    if z3.is_false(b): return False
+    if not small_term(b): return b
     r = z3.simplify(b)
     if z3.is_true(r): return True
     if z3.is_false(r): return False
@@ -111,6 +126,8 @@ def simp_bool(b):
 def simp_bv(v):
     """python int | z3 bv  -> python int if it simplifies to a numeral"""
     if isinstance(v, int): return v
+    if z3.is_bv_value(v): return v.as_long()
+    if not small_term(v): return v
     r = z3.simplify(v)
     if z3.is_bv_value(r): return r.as_long()
     return r
@@ -140,6 +157,9 @@ def ite_bv(c, a, b, w):
 
 def bv_eq(a, b, w):
     if isinstance(a, int) and isinstance(b, int): return a == b
+    if w > 8:
+        la, ha = bounds(a); lb, hb = bounds(b)
+        if ha < lb or hb < la: return False
     if isinstance(a, int): a = bvval(a, w)
     elif isinstance(b, int): b = bvval(b, w)
     elif a.eq(b): return True
@@ -149,12 +169,18 @@ def bv_eq(a, b, w):
 def bv_ult(a, b, w):
     if isinstance(a, int) and isinstance(b, int): return a < b
     if isinstance(b, int) and b == 0: return False
+    la, ha = bounds(a); lb, hb = bounds(b)
+    if ha < lb: return True
+    if la >= hb: return False
     return z3.ULT(bvval(a, w) if isinstance(a, int) else a, bvval(b, w) if isinstance(b, int) else b)
 
 
 def bv_ule(a, b, w):
     if isinstance(a, int) and isinstance(b, int): return a <= b
     if isinstance(a, int) and a == 0: return True
+    la, ha = bounds(a); lb, hb = bounds(b)
+    if ha <= lb: return True
+    if la > hb: return False
     return z3.ULE(bvval(a, w) if isinstance(a, int) else a, bvval(b, w) if isinstance(b, int) else b)
 
 
@@ -176,6 +202,57 @@ def bv_sub(a, b, w):
         b = bvval(b, w)
     if isinstance(a, int): a = bvval(a, w)
     return a - b
+
+
+# ------------------------------------------------------------------ interval analysis (used only to size capacities)
+_fresh_serial = 0
+VAR_BOUNDS = {}      # z3 variable name -> (lo, hi), registered by SymStr.fresh for length variables
+_bounds_cache = {}
+
+
+def bounds(t, w=64):
+    """sound (lo, hi) over-approximation of an unsigned bit-vector term (python int: exact)"""
+    if isinstance(t, int): return t, t
+    k = t.get_id()
+    r = _bounds_cache.get(k)
+    if r is not None: return r[1]
+    r = _bounds(t)
+    if len(_bounds_cache) > 400000: _bounds_cache.clear()
+    _bounds_cache[k] = (t, r)      # holding t keeps its AST id from being recycled while the entry lives
+    return r
+
+
+def _bounds(t):
+    w = t.size(); full = (0, (1 << w) - 1)
+    if z3.is_bv_value(t):
+        v = t.as_long(); return v, v
+    d = t.decl().kind()
+    if d == z3.Z3_OP_UNINTERPRETED:
+        return VAR_BOUNDS.get(t.decl().name(), full)
+    if d == z3.Z3_OP_ITE:
+        a = bounds(t.arg(1)); b = bounds(t.arg(2))
+        return min(a[0], b[0]), max(a[1], b[1])
+    if d == z3.Z3_OP_BADD:
+        lo = hi = 0
+        for i in range(t.num_args()):
+            a = bounds(t.arg(i)); lo += a[0]; hi += a[1]
+        if hi > full[1]: return full
+        return lo, hi
+    if d == z3.Z3_OP_BSUB and t.num_args() == 2:
+        a = bounds(t.arg(0)); b = bounds(t.arg(1))
+        if a[0] >= b[1]: return a[0] - b[1], a[1] - b[0]
+        return full
+    if d == z3.Z3_OP_ZERO_EXT:
+        return bounds(t.arg(0))
+    if d == z3.Z3_OP_EXTRACT:
+        a = bounds(t.arg(0)); hi_bit = t.params()[0]; lo_bit = t.params()[1]
+        if lo_bit == 0 and a[1] < (1 << (hi_bit + 1)): return a
+        return full
+    if d == z3.Z3_OP_BMUL and t.num_args() == 2:
+        a = bounds(t.arg(0)); b = bounds(t.arg(1))
+        if a[1] * b[1] <= full[1]: return a[0] * b[0], a[1] * b[1]
+        return full
+    return full
 
 
 # ------------------------------------------------------------------ integer operations (MIR BinOp / UnOp)
@@ -278,6 +355,10 @@ class Atom:
             bs = tuple(bs[:ln])
             assert len(bs) == ln, (ln, len(bs))
             minlen = ln
+        else:
+            lo, hi = bounds(ln)
+            if hi < len(bs): bs = bs[:hi]      # bytes at positions >= len are 0 by invariant: dropping them is exact
+            if lo > minlen: minlen = min(lo, len(bs))
         s.ln = ln; s.bs = tuple(bs); s.minlen = minlen
 
     @property
@@ -297,8 +378,9 @@ class Atom:
     def byte_at(s, idx):
         """idx python int or z3 BV64; returns byte (0 when out of range)"""
         if isinstance(idx, int): return s.bs[idx] if 0 <= idx < len(s.bs) else 0
+        lo, hi = bounds(idx)
         out = 0
-        for j in range(len(s.bs) - 1, -1, -1):
+        for j in range(min(len(s.bs) - 1, hi), lo - 1, -1):
             out = ite_bv(idx == bvval(j, LW), s.bs[j], out, 8)
         return out
 
@@ -337,7 +419,11 @@ class SymStr:
         if exact_len is not None:
             a = Atom(exact_len, tuple(bs[:exact_len])); ln = exact_len
         else:
-            ln = z3.BitVec(name + '_len', LW)
+            global _fresh_serial
+            _fresh_serial += 1
+            lname = '%s_len#%d' % (name, _fresh_serial)
+            ln = z3.BitVec(lname, LW)
+            VAR_BOUNDS[lname] = (minlen, cap)
             cons.append(z3.ULE(ln, bvval(cap, LW)))
             if minlen: cons.append(z3.UGE(ln, bvval(minlen, LW)))
             for i, b in enumerate(bs):
@@ -413,6 +499,9 @@ class SymStr:
                            sum(a.minlen for a in s.segs))
         return s._flat
 
+    def flat_segs(s):
+        return s.segs
+
     def byte_at(s, idx):
         if isinstance(idx, int):
             # walk concrete-length prefix
@@ -438,38 +527,61 @@ class SymStr:
             segs.extend(it.segs)
         return SymStr(segs)
 
-    def substr(s, off, n):
-        """bytes [off, off+n) ; caller guarantees off+n <= len (on the current path)"""
-        ln = s.length()
-        if isinstance(off, int) and isinstance(n, int):
-            # try segment-level slicing over the concrete-length prefix
-            segs = []; pos = 0; need_lo = off; need_hi = off + n; ok = True
-            for a in s.segs:
-                if pos >= need_hi: break
-                if not a.conc_len:
-                    ok = False; break
-                lo = max(need_lo, pos); hi = min(need_hi, pos + a.ln)
-                if lo < hi: segs.append(Atom(hi - lo, a.bs[lo - pos:hi - pos]))
-                pos += a.ln
-            if ok: return SymStr(segs)
-        f = s.flat()
-        if isinstance(off, int) and isinstance(n, int):
-            return SymStr((Atom(n, tuple(f.bs[off:off + n]) + (0,) * max(0, off + n - f.cap)),))
+    def drop(s, off):
+        """suffix starting at byte offset off (python int or z3 BV64); caller guarantees off <= len on the path"""
+        if isinstance(off, int) and off == 0: return s
+        lo, hi = bounds(off)
+        segs = list(s.segs); pos = 0; k = 0
+        # skip whole concrete-length segments that end at or before lo
+        while k < len(segs) and segs[k].conc_len and pos + segs[k].ln <= lo:
+            pos += segs[k].ln; k += 1
+        if k == len(segs): return SymStr(())
+        rel_lo = lo - pos
         if isinstance(off, int):
-            cap = max(0, f.cap - off)
-            bs = tuple(ite_bv(z3.UGT(n, bvval(i, LW)), f.bs[off + i], 0, 8) for i in range(cap))
-            return SymStr((Atom(n, bs),))
-        cap = f.cap
-        nz = bvval(n, LW) if isinstance(n, int) else n
-        if isinstance(n, int): cap = min(cap, n)
+            a = segs[k]
+            if a.conc_len:
+                return SymStr([Atom(a.ln - rel_lo, a.bs[rel_lo:])] + segs[k + 1:])
+            # cut inside a symbolic-length atom at a concrete offset: bytes shift left, no mask needed (zeros stay zeros)
+            rest = SymStr(segs[k:]).flat()
+            nl = bv_sub(rest.ln, rel_lo, LW)
+            return SymStr((Atom(nl, rest.bs[rel_lo:], max(0, rest.minlen - rel_lo)),))
+        rest = SymStr(segs[k:]).flat()
+        rel = bv_sub(off, pos, LW)
+        nl = bv_sub(rest.ln, rel, LW)
+        cap = max(0, rest.cap - rel_lo)
+        bs = tuple(rest.byte_at(bv_add(rel, i, LW)) for i in range(cap))
+        return SymStr((Atom(nl, bs),))
+
+    def take(s, n):
+        """prefix of n bytes (python int or z3 BV64); caller guarantees n <= len on the path"""
+        lo, hi = bounds(n)
+        segs = list(s.segs); pos = 0; k = 0; out = []
+        while k < len(segs) and segs[k].conc_len and pos + segs[k].ln <= lo:
+            out.append(segs[k]); pos += segs[k].ln; k += 1
+        if k == len(segs): return SymStr(out)
+        if isinstance(n, int):
+            a = segs[k]
+            if a.conc_len:
+                out.append(Atom(n - pos, a.bs[:n - pos])); return SymStr(out)
+            rest = SymStr(segs[k:]).flat()
+            bs = tuple(rest.bs[:n - pos]) + (0,) * max(0, n - pos - rest.cap)
+            out.append(Atom(n - pos, bs)); return SymStr(out)
+        rest = SymStr(segs[k:]).flat()
+        rel = bv_sub(n, pos, LW)
+        cap = max(0, min(rest.cap, hi - pos))
         bs = []
         for i in range(cap):
-            b = f.byte_at(off + bvval(i, LW))
-            bs.append(b if isinstance(n, int) else ite_bv(z3.UGT(nz, bvval(i, LW)), b, 0, 8))
-        return SymStr((Atom(n, tuple(bs)),))
+            if i < lo - pos: bs.append(rest.bs[i])
+            else: bs.append(ite_bv(z3.UGT(rel, bvval(i, LW)), rest.bs[i], 0, 8))
+        out.append(Atom(rel, tuple(bs), max(0, lo - pos)))
+        return SymStr(out)
+
+    def substr(s, off, n):
+        """bytes [off, off+n) ; caller guarantees off+n <= len (on the current path)"""
+        return s.drop(off).take(n)
 
     def suffix_from(s, off):
-        return s.substr(off, bv_sub(s.length(), off, LW))
+        return s.drop(off)
 
     # ---- predicates (return python bool or z3 Bool)
     def eq(s, o):
@@ -501,6 +613,7 @@ class SymStr:
     def ends_with(s, pat):
         pl = len(pat) if isinstance(pat, (bytes, bytearray)) else pat.flat().ln
         f = s.flat()
+        if bounds(f.ln)[1] < pl: return False
         if f.conc_len:
             if f.ln < pl: return False
             return s.match_at(f.ln - pl, pat)
